@@ -174,6 +174,25 @@ func runConcCase(w *cw.Writer, cc concCase, kind string) error {
 		}
 		ha.AugmentContext(func(c context.Context) context.Context { return context.WithValue(c, tagKey{}, tag) })
 	})
+	// request 2 has been served completely by the responder (its link tracking is finished before its last
+	// status is queued; the listener fires when that status was sent)
+	served2 := make(chan struct{}, 1)
+	resp.RegisterCompletedResponseListener(func(p peer.ID, rd graphsync.RequestData, status graphsync.ResponseStatusCode) {
+		if !rd.Root().Equals(root1Cid) {
+			select {
+			case served2 <- struct{}{}:
+			default:
+			}
+		}
+	})
+	resp.RegisterRequestorCancelledListener(func(p peer.ID, rd graphsync.RequestData) {
+		if !rd.Root().Equals(root1Cid) {
+			select {
+			case served2 <- struct{}{}:
+			default:
+			}
+		}
+	})
 	ctx, cancel := context.WithTimeout(world.Ctx, 25*time.Second)
 	defer cancel()
 	type res struct{ o observed }
@@ -197,6 +216,10 @@ func runConcCase(w *cw.Writer, cc concCase, kind string) error {
 	if gated {
 		r2 := <-c2
 		o2 = r2.o
+		select {
+		case <-served2:
+		case <-ctx.Done():
+		}
 		doRelease()
 		o1 = (<-c1).o
 	} else {
